@@ -23,8 +23,8 @@ struct Counted {
     ~Counted() { --g_live; }
 };
 
-enum Op { CopyP, GetTask, CopyT, ThenPlain, ThenSelfCapture, ThenReenter, Finish, DestroyCtx, DropP, DropT, NOPS };
-static const char *opNames[] = { "copyP", "task", "copyT", "then", "then(self-capturing)", "then(re-entering)", "finish", "destroyCtx", "dropP", "dropT" };
+enum Op { CopyP, GetTask, CopyT, ThenPlain, ThenSelfCapture, ThenReenter, Finish, DestroyCtx, DropP, DropT, FinishLvalue, FinishConvert, NOPS };
+static const char *opNames[] = { "copyP", "task", "copyT", "then", "then(self-capturing)", "then(re-entering)", "finish", "destroyCtx", "dropP", "dropT", "finish(lvalue)", "finish(convertible)" };
 
 struct Model {
     int promises = 1, tasks = 0;
@@ -41,7 +41,9 @@ struct Model {
         case ThenPlain:
         case ThenSelfCapture:
         case ThenReenter: return tasks >= 1 && ctxAlive && !thenDone;
-        case Finish: return promises >= 1 && !finished;
+        case Finish:
+        case FinishLvalue:
+        case FinishConvert: return promises >= 1 && !finished;
         case DestroyCtx: return ctxAlive;
         case DropP: return promises >= 1;
         case DropT: return tasks >= 1;
@@ -68,6 +70,8 @@ struct Model {
             }
             break;
         case Finish:
+        case FinishLvalue:
+        case FinishConvert:
             finished = true;
             if (thenDone) {
                 if (ctxAlive) {
@@ -91,16 +95,19 @@ struct Model {
 template<typename T> struct V;
 template<> struct V<QString> {
     static QString make() { return QStringLiteral("value-42"); }
+    static QLatin1String convertible() { return QLatin1String("value-42"); }
     static bool ok(const QString &s) { return s == QLatin1String("value-42"); }
     static const char *name() { return "QString"; }
 };
 template<> struct V<std::unique_ptr<int>> {
     static std::unique_ptr<int> make() { return std::make_unique<int>(42); }
+    static int *convertible() { return new int(42); }
     static bool ok(const std::unique_ptr<int> &p) { return p && *p == 42; }
     static const char *name() { return "unique_ptr<int>"; }
 };
 template<> struct V<Counted> {
     static Counted make() { return Counted(42); }
+    static int convertible() { return 42; }
     static bool ok(const Counted &c) { return c.v == 42; }
     static const char *name() { return "Counted"; }
 };
@@ -129,6 +136,13 @@ static Outcome execute(const std::vector<int> &seq)
         other.task().then(&otherCtx, [&out]() { ++out.otherInvoked; });
 
         for (int op : seq) {
+            // the implementation may have diverged from the model (e.g. a continuation that must not run dropped the
+            // task copies): stop executing, the invocation count already differs and is reported
+            const bool needsTask = op == CopyT || op == ThenPlain || op == ThenSelfCapture || op == ThenReenter || op == DropT;
+            const bool needsPromise = op == CopyP || op == GetTask || op == Finish || op == FinishLvalue || op == FinishConvert || op == DropP;
+            if ((needsTask && tasks.empty()) || (needsPromise && promises.empty())) {
+                break;
+            }
             switch (op) {
             case CopyP: promises.push_back(promises.front()); break;
             case GetTask: tasks.push_back(promises.back().task()); break;
@@ -180,10 +194,22 @@ static Outcome execute(const std::vector<int> &seq)
                 break;
             }
             case Finish:
+            case FinishLvalue:
+            case FinishConvert:
                 if constexpr (std::is_void_v<T>) {
                     promises.back().finish();
-                } else {
+                } else if (op == Finish) {
                     promises.back().finish(V<T>::make());
+                } else if (op == FinishLvalue) {
+                    // an lvalue selects the converting overload (U = T&)
+                    if constexpr (std::is_copy_constructible_v<T>) {
+                        T value = V<T>::make();
+                        promises.back().finish(value);
+                    } else {
+                        promises.back().finish(V<T>::make());
+                    }
+                } else {
+                    promises.back().finish(V<T>::convertible());
                 }
                 break;
             case DestroyCtx:
@@ -283,7 +309,7 @@ static void enumerate(EnumCtx &ctx, int maxLen)
             return;
         }
         for (int op = 0; op < NOPS; ++op) {
-            if (!m.enabled(op)) {
+            if (!m.enabled(op) || (std::is_void_v<T> && (op == FinishLvalue || op == FinishConvert))) {
                 continue;
             }
             Model n = m;
